@@ -549,5 +549,17 @@ def run(prog: Program) -> Results:
     r8 = res.rule("R-C10-8", "assigning through a reference installs a copy of the assigned expression: a result is never taken from "
                   "an unrelated document because one object carries two documents' chains (shared with R-C11-1)", floor=1)
     setter_copy_rule(prog, res, "R-C10-8", r8)
+    # ---------------------------------------------------------------- R-C10-9 (shared with R-C11-3): chains are recomputed from the owner
+    from sa.rules import c11 as _c11
+    _sub11 = _c11.run(prog, _no_c10=True) if "_no_c10" in _c11.run.__code__.co_varnames else None
+    if _sub11 is not None:
+        _st = _sub11.rules.get("R-C11-3")
+        _r9 = res.rule("R-C10-9", "a lookup sees the document as it is now: attach_resolution_context recomputes the chain from the owner "
+                       "on every access that names one (shared with R-C11-3)", floor=2)
+        if _st:
+            _r9.instances, _r9.obligations, _r9.discharged = _st.instances, _st.obligations, _st.discharged
+        for _f in _sub11.findings:
+            if _f.rule == "R-C11-3":
+                res.add("R-C10-9", _f.key, _f.where, _f.message)
     res.assumptions = ["_CONTEXTS is an unlocked dict relying on the GIL", "precedence among let/rec/formals at equal depth is runtime structure"]
     return res
